@@ -1,0 +1,55 @@
+//! Observation hooks for the external verification harness. Only compiled with the
+//! `verif-hooks` feature: nothing in here changes what Tera does, except `set_skip_optimize`
+//! which turns the bytecode fusion pass off for the calling thread.
+use std::cell::Cell;
+use std::sync::Mutex;
+use std::sync::atomic::{AtomicU64, Ordering};
+
+thread_local! {
+    static SKIP_OPTIMIZE: Cell<bool> = const { Cell::new(false) };
+}
+
+/// Templates compiled by this thread while this is `true` don't go through `Chunk::optimize`
+pub fn set_skip_optimize(skip: bool) {
+    SKIP_OPTIMIZE.with(|s| s.set(skip));
+}
+
+pub(crate) fn skip_optimize() -> bool {
+    SKIP_OPTIMIZE.with(|s| s.get())
+}
+
+/// What was seen where an interpreter run ended successfully
+#[derive(Debug, Clone, PartialEq, Eq)]
+pub struct RenderEnd {
+    /// `render`, `block`, `super`, `include`, `component`
+    pub site: &'static str,
+    /// (value stack, loop stack, capture stack) sizes when entering
+    pub before: (usize, usize, usize),
+    /// (value stack, loop stack, capture stack) sizes when leaving
+    pub after: (usize, usize, usize),
+}
+
+static RENDER_ENDS: AtomicU64 = AtomicU64::new(0);
+static UNBALANCED: Mutex<Vec<RenderEnd>> = Mutex::new(Vec::new());
+
+pub(crate) fn render_end(
+    site: &'static str,
+    before: (usize, usize, usize),
+    after: (usize, usize, usize),
+) {
+    RENDER_ENDS.fetch_add(1, Ordering::Relaxed);
+    if before != after {
+        let mut log = UNBALANCED.lock().unwrap();
+        if log.len() < 64 {
+            log.push(RenderEnd { site, before, after });
+        }
+    }
+}
+
+/// (number of interpreter runs observed so far, the ones that left a stack unbalanced)
+pub fn render_end_report() -> (u64, Vec<RenderEnd>) {
+    (
+        RENDER_ENDS.load(Ordering::Relaxed),
+        UNBALANCED.lock().unwrap().clone(),
+    )
+}
